@@ -11,6 +11,7 @@ package openflow13
 import (
 	"encoding/binary"
 	"errors"
+	"fmt"
 	"net"
 
 	"github.com/contiv/libOpenflow/common"
@@ -99,6 +100,17 @@ const (
 )
 
 func Parse(b []byte) (message util.Message, err error) {
+	if len(b) < 8 {
+		return nil, errors.New("The []byte is too short to hold an OpenFlow header.")
+	}
+	// The decoders index the buffer without checking it: a frame whose length
+	// fields disagree with its size must give an error, not crash the caller.
+	defer func() {
+		if r := recover(); r != nil {
+			message = nil
+			err = fmt.Errorf("malformed OpenFlow message: %v", r)
+		}
+	}()
 	switch b[1] {
 	case Type_Hello:
 		message = new(common.Hello)
